@@ -1594,7 +1594,11 @@ fn run_thread(w: &World, ep: &Episode, tid: usize, plumbing: &Plumbing, seen_new
         });
         crate::progress(tid, i);
         let armed_before = matches!(op, Op::ArmInert { .. });
+        let t_op = if crate::timing() { Some(std::time::Instant::now()) } else { None };
         let out = th.run_op(op);
+        if let Some(t) = t_op {
+            eprintln!("  op {} {} {:.3}s", i, out.kind_name, t.elapsed().as_secs_f64());
+        }
         if !armed_before {
             // a one-shot ArmInert only covers the very next operation
             with_ctx(|c| c.inert_countdown = None);
